@@ -90,6 +90,12 @@ CHECKS = [
               "node including every line/column, the loader's code objects must carry the same names, function first lines and __future__ flags, and "
               "generated modules behave identically when executed (results, docstrings, traceback lines).",
          note="corpus = files that compile unmodified on CPython 3.12 (quick: seed-dependent sample of ~1200; thorough: all ~17k); location of the added nodes judged via code objects"),
+    dict(property_id="C11", level="exploration", design_ref="DESIGN.md §5 C11",
+         technique="Hypothesis-generated histories of install/uninstall/import operations over a package forest with look-alike names; model = first-import decision by the most recently installed matching active hook; spy typecheckers + inserted-import + ill-typed-call observations",
+         text="Several hooks with different checkers (incl. None) active at once, with-block and handle styles, uninstall in any order, imports of parents/"
+              "siblings/look-alikes, imports executed lazily inside function bodies after an uninstall, and the pytest option are interleaved; after each "
+              "operation every loaded forest module must have exactly the instrumentation the model predicts.",
+         note="9-module forest in a temp dir, bytecode writing off; sys.modules purged between cases only; IPython magic covered through the shared transformer in C10"),
 ]
 _pending = "check not built yet in this round (will be claimed once its machinery is committed)"
 NOT_APPLICABLE = [dict(property_id=f"C{i:02d}", reason=_pending) for i in range(1, 21)
